@@ -242,7 +242,7 @@ PROPS = {
     },
     "C10": {
         "level": "proof",
-        "lean_targets": ["LP.Props.C10"],
+        "lean_targets": ["LP.Props.C10", "LP.Props.Elim"],
         "harnesses": [{"name": "h_eval", "quick": 700, "thorough": 15000}],
         "select": lambda t: t[1] == "ev" and t[2] in ("sgn", "value", "cons"),
         "nontrivial": lambda t, r: True,
@@ -251,7 +251,7 @@ PROPS = {
                 "vanishing on the tuple and c in {0, +-1} (also scaled by 2^10..2^40), random polynomials, and d*x0 - n with n/d inside the "
                 "isolating interval of a root of a - M(x+..+x^n) (zero-test bound family); sgn, evaluate, constraint_evaluate (six "
                 "conditions), 20% under the reversed variable order. Every line is non-trivial.",
-        "trusted_base": ["the eliminant of z - p(x) (iterated Sylvester determinants of the model) vanishes at p(alpha): classical, not formalised"],
+        "trusted_base": ["none beyond the common base: the resultant property used for the answer 0 is proved (resultant_vanishes, eliminant_root, C10_sign_exact)"],
         "assumptions": ["largest elimination step of Sylvester order <= 8; above that only certified non-zero signs are judged"],
     },
     "C11": {
